@@ -37,6 +37,24 @@ def failing(module, cfg, trace, progs_path, sig):
     return out, v
 
 
+def flight_fates(evs):
+    """{program: {stimulus signature: (handlers that ran, verdict returned)}} read off the recorded flights."""
+    out = {}
+    cur = None
+    for e in evs:
+        t = e.get("ev")
+        if t == "Deliver":
+            cur = (e.get("prog"), (e.get("ep"), e.get("shape"), e.get("key"), e.get("body"), e.get("via"), e.get("val"), e.get("part"), e.get("method")), [])
+        elif t == "Handler" and cur:
+            cur[2].append((e.get("part"), e.get("name"), e.get("kind")))
+        elif t == "Return" and cur:
+            out.setdefault(cur[0], {})[cur[1]] = (tuple(cur[2]), e.get("verdict"))
+            cur = None
+        elif t in ("Reset", "Panic"):
+            cur = None
+    return out
+
+
 def run(prop, tier, seed, replay):
     t0 = time.time()
     rep = common.Report(prop)
@@ -63,7 +81,7 @@ def run(prop, tier, seed, replay):
     # routing twins
     rtp = routing.pipeline(tier, seed)
     ff, _ = failing("Trace_Routing", "Trace_Routing.cfg", rtp["trace"], rtp["progs_path"],
-                    lambda c: (c.get("ep"), c.get("shape"), c.get("key"), c.get("body"), c.get("via"), c.get("val")))
+                    lambda c: (c.get("ep"), c.get("shape"), c.get("key"), c.get("body"), c.get("via"), c.get("val"), c.get("part"), c.get("method")))
     rids = {p["id"] for p in rtp["progs"]}
     for a in sorted(rids):
         b = a + "p"
@@ -76,6 +94,20 @@ def run(prop, tier, seed, replay):
                 d = sorted(fa ^ fb, key=str)[:5]
                 rep.violation("routing-twin-differs|%s" % (d[0][0],), "C14: routing programs %s and %s differ only in declaration order "
                               "but behave differently: %s" % (a, b, d), {"difference.json": [list(map(str, x)) for x in d]})
+    # the same document has the same fate in both twins: which handlers run, and what the caller gets
+    fates = flight_fates(read_ndjson(rtp["trace"]))
+    for a in sorted(rids):
+        b = a + "p"
+        if b in rids:
+            fa, fb = fates.get(a, {}), fates.get(b, {})
+            diff = sorted((k for k in set(fa) & set(fb) if fa[k] != fb[k]), key=str)
+            if diff:
+                k0 = diff[0]
+                rep.violation("routing-twin-fate-differs|%s" % ("alias-program" if a.startswith("AL") else "program"),
+                              "C14: routing programs %s and %s differ only in declaration order, yet the document (ep, shape, key, body, via, val, part, "
+                              "method) = %s runs %s / returns %s in one and runs %s / returns %s in the other" % (
+                                  a, b, k0, fa[k0][0], fa[k0][1], fb[k0][0], fb[k0][1]),
+                              {"difference.json": [[str(k), str(fa[k]), str(fb[k])] for k in diff[:10]]})
     # the overlap check over every tuple of lists in every order (the parts of a contract in every order of declaration)
     from . import merge
     mp = merge.piece(rep, "quick", seed)
